@@ -451,6 +451,17 @@ theorem member_wf : ∀ (ms : List (String × DType F)) (k : String) (t : DType 
     · simp only [e, if_false] at h
       exact member_wf rest k t hw.2 h
 
+theorem member_aligned : ∀ (ms : List (String × DType F)) (k : String) (t : DType F),
+    GridAlignedFields ms → DType.member? ms k = some t → GridAligned t
+  | [], _, _, _, h => by simp [DType.member?, dictGet] at h
+  | (k', t') :: rest, k, t, hw, h => by
+    simp only [GridAlignedFields] at hw
+    simp only [DType.member?, dictGet] at h
+    by_cases e : k' = k
+    · simp only [e, if_true] at h; injection h with h; subst h; exact hw.1
+    · simp only [e, if_false] at h
+      exact member_aligned rest k t hw.2 h
+
 theorem member_resLeOne : ∀ (ms : List (String × DType F)) (k : String) (t : DType F),
     ResLeOneFields ms → DType.member? ms k = some t → ResLeOne t
   | [], _, _, _, h => by simp [DType.member?, dictGet] at h
